@@ -3,7 +3,7 @@ that are hashed, computed from types and resolved callees (not spelling).  Oblig
 cross-language contract (spec/canonical.json) and sibling families agree."""
 import json
 import os
-from astu import C, ctxt, gt_pair, eq_const, strip, strip_all, walk, txt, short, stmts_of, functions_by
+from astu import C, ctxt, gt_pair, eq_const, reach, reach_txt, ctext, strip, strip_all, walk, txt, short, stmts_of, functions_by
 from vlib.core import ob, VERIF
 
 INT_NAMES = {"unsigned long": "u64", "long": "i64", "unsigned int": "u32", "int": "i32", "unsigned short": "u16", "short": "i16",
